@@ -12,12 +12,17 @@ struct Opened {
     ExactBuf* buf = nullptr;
     int fd = -1;
     sb_error_t rc;
+    bool modified = false;
+    std::string rcs() const { return std::to_string((long long)rc) + (modified ? "!the-caller's-buffer-was-modified" : ""); }
     Opened(const std::string& route, const std::vector<uint8_t>& v)
     {
         memset(&parser, SBH_FILL, sizeof(parser));
         if (route == "m") {
             buf = new ExactBuf(v);
             rc = sb_binary_file_parser_init_from_buffer(&parser, buf->p, buf->n);
+            // the caller's bytes are input only: opening (and checksumming) a file must not write to them
+            if (buf->n && memcmp(buf->p, v.data(), buf->n) != 0)
+                modified = true;
         } else {
             fd = make_fd(v);
             rc = sb_binary_file_parser_init_from_file(&parser, fd);
@@ -37,13 +42,13 @@ SB_OP(fcorr)
 {
     auto v = unhex(t[3]);
     Opened o(t[2], v);
-    add(out, (long long)o.rc);
+    add(out, o.rcs());
 }
 SB_OP(facc)
 {
     auto v = unhex(t[3]);
     Opened o(t[2], v);
-    add(out, (long long)o.rc);
+    add(out, o.rcs());
 }
 
 // faccseq route hex1 hex2 ... -> rc of init for each file, all loaded one after the other from the SAME caller
